@@ -25,7 +25,7 @@ func init() {
 		Explanation: "(R1) each hand-written decoder (Array.UnmarshalVTNoAlloc, Item.UnmarshalVTNoAlloc, marshaller.unmarshalVT incl. its map-entry sub-decoder) dispatches on exactly the field numbers of the generated message, checks the wire type the schema implies and assigns the matching struct field, and the key/value of a map entry come from that entry alone (no decoding state carried from one entry to the next); " +
 			"(R2) the tag constants of the hand-written store encoder equal (field<<3)|wiretype of the schema, are written in the role they are named for, and the byte-size precomputation accounts exactly the components the writer emits; " +
 			"(R3) in unmarshalVT every map insertion is paired with dataSize += len(key)+len(value), the default marshaller returns that count, and the default marshaller is not one that reports a constant size; " +
-			"(R4) MarshalFast/UnmarshalFast use the Array message on both sides (standard MarshalVT ↔ no-alloc decoder) and rebuild the map keyed by BlockId. Also (R1) every varint accumulator of the decoders enters its loop as 0. Also (R2) store marshallers keep no state between calls. Also (R4) a retried download adds nothing to a captured buffer.",
+			"(R4) MarshalFast/UnmarshalFast use the Array message on both sides (standard MarshalVT ↔ no-alloc decoder) and rebuild the map keyed by BlockId. Also (R1) every varint accumulator of the decoders enters its loop as 0. Also (R2) store marshallers keep no state between calls. Also (R4) a retried download adds nothing to a captured buffer. Also (R1) a varint of the hand-written decoders ends exactly at the first byte below 0x80.",
 		NotCovered:  "The varint/length arithmetic inside the copied decoder loops and byte-exact agreement on generated data (the generated protobuf/vtproto code is trusted).",
 		Assumptions: []string{"generated struct tags are the schema", "protobuf wire types: varint=0, fixed64=1, bytes=2, fixed32=5"},
 	})
@@ -527,6 +527,7 @@ func runC18(p *core.Prog, r *core.Report) {
 		})
 	})
 	r.Guard("C18.R1", "varint-accumulators", "every varint starts from zero", func() { checkVarintAccumulatorsFresh(p, r, "C18.R1") })
+	r.GuardExact("C18.R1", "varint-terminators", "a varint ends at the first byte below 0x80", func() { checkVarintTerminator(p, r, "C18.R1") })
 	r.Guard("C18.R3", "marshaller-contracts", "every marshaller: size and both parts", func() { checkMarshallerContracts(p, r, nil) })
 	r.Guard("C18.R3", "default-marshaller", "default marshaller recounts", func() {
 		def := p.Func(pkgMarsh, "Default")
